@@ -308,7 +308,7 @@ def diff_snap(a, b):
 # network
 # ------------------------------------------------------------------------------------------
 class Emission(object):
-    __slots__ = ("i", "t", "src", "dst", "to_server", "data", "key", "_parsed", "fates")
+    __slots__ = ("i", "t", "src", "dst", "to_server", "data", "key", "_parsed", "fates", "refused")
 
     def parsed(self):
         if self._parsed is None:
@@ -329,7 +329,9 @@ class Net(object):
         self.log = []      # every Emission, in emission order (the wire tap)
         self.delivered = 0
 
-    def emit(self, src, dst, data, key):
+    def emit(self, src, dst, data, key, refused=False):
+        """refused: the datagram was handed to a socket that raised (see _ClientSock.sendto): for the protocol it is a
+        datagram that was sent and lost, so it is logged (wire taps and callback oracles know it existed) with no fate"""
         em = Emission()
         em.i = len(self.log)
         em.t = self.world.clock.t
@@ -339,8 +341,14 @@ class Net(object):
         em.key = key
         em._parsed = None
         self.log.append(em)
+        em.refused = refused
         for h in self.world.on_emit:
             h(em)
+        if refused:
+            em.fates = []
+            if hasattr(self.policy, "dropped"):
+                self.policy.dropped.append(em.i)
+            return em
         delays = [self.default_delay] if self.policy is None else self.policy(em)
         em.fates = list(delays)
         for d in delays:
@@ -505,6 +513,9 @@ class ClientH(object):
         self.status_log = []     # (t, status name)
         self.connect_cb = []     # (t, value)
         self.update_errors = []  # (t, repr)
+        self.sendto_calls = 0
+        self.send_faults = None  # set of sendto() call numbers (1-based, see arm_send_faults) at which the socket raises
+        self.send_fault_log = []
         self.received = []       # (t, seq, payload)
         self.alive = True
         self.frames = 0
@@ -529,6 +540,10 @@ class ClientH(object):
         self.udp.connect(w.server_addr, cb)
         self._note_status()
 
+    def arm_send_faults(self, offsets):
+        """the socket refuses (BlockingIOError) the k-th sendto() from now on, for every k in offsets"""
+        self.send_faults = set(self.sendto_calls + int(k) for k in offsets if int(k) >= 1) or None
+
     def _note_status(self):
         s = self.udp.status()
         s = s.name() if callable(getattr(s, "name", None)) else str(s)
@@ -550,6 +565,9 @@ class ClientH(object):
         while True:
             try:
                 self.udp.update()
+            except BlockingIOError as e:
+                if "injected by the harness" not in str(e):
+                    self.update_errors.append((w.clock.t, "%s: %s" % (type(e).__name__, e)))
             except Exception as e:
                 self.update_errors.append((w.clock.t, "%s: %s" % (type(e).__name__, e)))
             n += 1
@@ -600,6 +618,13 @@ class _ClientSock(object):
 
     def sendto(self, data, addr):
         ch = self.ch
+        ch.sendto_calls += 1
+        if ch.send_faults and ch.sendto_calls in ch.send_faults:
+            # a non-blocking UDP socket whose buffer is full: the datagram never leaves the host.  The unchanged library
+            # lets the exception travel up to the application (frame() below plays the application that carries on)
+            ch.send_fault_log.append((ch.world.clock.t, len(data)))
+            ch.world.net.emit(ch.laddr, addr, data, ch.key, refused=True)
+            raise BlockingIOError(11, "injected by the harness: send buffer full")
         ch.world.net.emit(ch.laddr, addr, data, ch.key)
 
     def close(self):
